@@ -173,6 +173,15 @@ func analyse(x *Exec) *RunResult {
 				}
 			}
 		}
+		if wr.Inst != nil && wr.Inst.TooSmall > 10 {
+			add(Violation{Kind: "reader-stuck", Watcher: wr.Idx, Site: "read-buffer-too-small",
+				Detail: fmt.Sprintf("the reader called read %d times with a buffer that cannot hold the next notification (%d bytes): the kernel answers EINVAL every time and nothing is ever delivered again", wr.Inst.TooSmall, func() int {
+					if len(wr.Inst.Queue) > 0 {
+						return len(wr.Inst.Queue[0].Raw)
+					}
+					return 0
+				}())})
+		}
 		// cap(Events)
 		want := wr.BufReq
 		if want < 0 {
